@@ -88,10 +88,11 @@ META = {
               "and yields a dependency-respecting order, under which every archetype lookup succeeds), Display/FromStr round trips, and the built simulation has "
               "exactly the denoted modules, symbols and gate clusters (instantiate_modules_gates_exact). Tied to the code by replaying thousands of generated and "
               "mutated descriptions through the real FromStr/serde_yml/transform/nodes_from_ndl and comparing Ok/Err(kind,payload,span)/panic, the elaborated "
-              "tree, and every module/gate/connection slot/channel metric with the model and with an independently written top-down denotation."),
+              "tree, and every module/gate/connection slot/channel metric with the model and with an independently written top-down denotation; "
+              "the built simulation equals the denotation of the tree in modules, gates, connection slots and channel metrics (instantiate_connections_exact); for descriptions without type arguments "
+              "transform equals the top-down denotation (transform_eq_denotation_partial, transform_sound_complete_partial); three error kinds are characterised at their origin (error_kinds_descriptive_partial)."),
         design_ref="DESIGN.md §5 C18",
-        note=("Models the code with the three F7 repairs applied. Not proved, checked per case only: transform = top-down denotation; connection slots of "
-              "instantiate = denotation (partial w.r.t. the 'no more and no fewer connections' clause). Trusted: YAML layer, f64<->ms rendering, names without '.', "
+        note=("Models the code with the three F7 repairs applied. Not proved, checked per case only: transform = denotation for submodule types with type arguments G(C); the converse/error direction. Trusted: YAML layer, f64<->ms rendering, names without '.', "
               "hash-order-dependent descriptions compared weakly."),
         technique=_T),
     "C06": dict(
